@@ -176,7 +176,7 @@ Proof.
     destruct (update_last_cmid _ _ _ _ _); [|intros [H|H]; congruence]. unfold run_handler.
     destruct (process_message _ _ _ _ _ _) as [[[[] ?] ?]|?|?]; intros [H|H]; discriminate.
   - destruct (update_last_cmid _ _ _ _ _); intros [H|H]; congruence.
-  - destruct parsed; intros [H|H]; discriminate.
+  - destruct (config_in_force _ _ _); intros [H|H]; discriminate.
 Qed.
 
 Lemma apply_entry_PInv e sv en sv' :
@@ -261,7 +261,7 @@ Proof.
   - destruct (is_retry _ _ _); [intros [= _ <-] []|]. unfold update_last_cmid.
     destruct (sv_sessions sv !! _) as [s|]; [now eexists|discriminate].
   - destruct (update_last_cmid _ _ _ _ _); [|discriminate]. intros [= _ <-] [].
-  - destruct parsed; intros [= _ <-] [].
+  - destruct (config_in_force _ _ _); intros [= _ <-] [].
 Qed.
 
 (* ====================================================================================================== *)
@@ -416,7 +416,7 @@ Proof.
       destruct (sv_sessions sv !! (session, 0%N)) as [s|] eqn:Hs; [apply Hgen; [now eexists|exact Logic.I]|discriminate].
     + unfold update_last_cmid in Ha. destruct (sv_sessions sv !! (session, 0%N)) as [s|]; [|discriminate].
       injection Ha as <- _. cbn. auto.
-    + destruct parsed; injection Ha as <- _; cbn; auto.
+    + destruct (config_in_force _ _ _); injection Ha as <- _; cbn; auto.
   - rewrite (apply_entry_same e sv en sv' (or_introl Ha)). auto.
   - rewrite (apply_entry_same e sv en sv' (or_intror Ha)). auto.
 Qed.
